@@ -62,6 +62,8 @@ class ConstP:
             self.errors[T] = str(ex)
             return None
         rets = [p for p in ps if p.kind == "ret"]
+        if len(rets) == 1 and isinstance(rets[0].value, tuple) and rets[0].value and rets[0].value[0] == "namedc" and isinstance(rets[0].value[2], int):
+            rets[0].value = interp.C(rets[0].value[2])          # a named constant returned as such: its value
         if len(rets) == 1 and is_c(rets[0].value):
             self.cache[T] = rets[0].value[1]
             return self.cache[T]
